@@ -1,368 +1,5 @@
 //@unit c16_new props=C16,C03,C15,C20 widths=u16 thorough_widths=u8,u16,u32
-//@use prelude/head.rs
-use std::collections::HashMap;
-use vstd::std_specs::hash::*;
-//@use prelude/action.rs
-//@use prelude/grammar.rs
-//@use prelude/vob.rs
-
-pub struct StateTable {}
-impl StateTable {
-    // contract proved in unit c16_codec
-    #[verifier::external_body]
-    pub fn decode(bits: usize) -> (r: Action<$T>) requires (bits >> 2) <= $TMAX ensures r == dec(bits) { unimplemented!() }
-    // contract proved in unit c16_codec
-    #[verifier::external_body]
-    pub fn encode(action: Action<$T>) -> (r: usize) ensures r == enc(action) { unimplemented!() }
-}
-// contract proved in unit c03_resolve (same clauses, restated over the spec functions used here)
-#[verifier::external_body]
-fn resolve_shift_reduce(grm: &YaccGrammar, actions: &mut Vec<usize>, off: usize, tidx: TIdx<$T>, pidx: PIdx<$T>, stidx: StIdx<$T>,
-        shift_reduce: &mut Vec<(TIdx<$T>, PIdx<$T>, StIdx<$T>)>, conflict_stidx: StIdx<$T>)
-    requires off < old(actions)@.len(), old(actions)@[off as int] == enc(Action::Reduce(pidx)),
-    ensures final(actions)@.len() == old(actions)@.len(),
-        forall|i: int| 0 <= i < old(actions)@.len() && i != off ==> final(actions)@[i] == old(actions)@[i],
-        final(actions)@[off as int] == enc(Action::Reduce(pidx)) || final(actions)@[off as int] == enc(Action::Shift(stidx)) || final(actions)@[off as int] == enc(Action::<$T>::Error),
-{ unimplemented!() }
-// contract proved in unit c16_codec
-#[verifier::external_body]
-fn actions_offset(tokens_len: TIdx<$T>, stidx: StIdx<$T>, tidx: TIdx<$T>) -> (r: usize)
-    ensures r == (stidx.0 as usize) * (tokens_len.0 as usize) + (tidx.0 as usize) { unimplemented!() }
-
-#[verifier::external_body]
-pub struct StateGraph { _s: usize }
-pub type Item = ((PIdx<$T>, SIdx<$T>), Vob);
-impl StateGraph {
-    pub uninterp spec fn nstates(&self) -> nat;
-    pub uninterp spec fn items(&self, s: int) -> Seq<Item>;                    // closed state s, in HashMap iteration order
-    pub uninterp spec fn edge_list(&self, s: int) -> Seq<(Symbol<$T>, StIdx<$T>)>;  // edges of state s, in HashMap iteration order
-    // what lrtable's own construction guarantees about a StateGraph for `grm` (assumed)
-    pub open spec fn wf(&self, grm: &YaccGrammar) -> bool {
-        &&& self.nstates() <= $TMAX
-        &&& forall|s: int, e: int| 0 <= s < self.nstates() && 0 <= e < self.items(s).len() ==>
-                ((#[trigger] self.items(s)[e]).0.0.0 as nat) < grm.nprods() && self.items(s)[e].1@.len() == grm.ntok()
-        &&& forall|s: int, e: int| 0 <= s < self.nstates() && 0 <= e < self.edge_list(s).len() ==>
-                ((#[trigger] self.edge_list(s)[e]).1.0 as nat) < self.nstates()
-                && (self.edge_list(s)[e].0 matches Symbol::Rule(r) ==> (r.0 as nat) < grm.nrules())
-                && (self.edge_list(s)[e].0 matches Symbol::Token(t) ==> (t.0 as nat) < grm.ntok())
-        // HashMap keys are distinct
-        &&& forall|s: int, e1: int, e2: int| 0 <= s < self.nstates() && 0 <= e1 < e2 < self.edge_list(s).len() ==>
-                (#[trigger] self.edge_list(s)[e1]).0 != (#[trigger] self.edge_list(s)[e2]).0
-    }
-    // contract proved in unit c20_states (StateGraph::new only builds graphs whose state count fits StorageT)
-    #[verifier::external_body]
-    pub fn all_states_len(&self) -> (r: StIdx<$T>) ensures r.0 == self.nstates(), self.nstates() <= $TMAX { unimplemented!() }
-    // dialect rule 5: `sg.iter_closed_states().enumerate()` + `for (&(pidx, dot), ctx) in &state.items`
-    #[verifier::external_body]
-    pub fn closed_items(&self, s: usize) -> (r: &Vec<Item>) requires s < self.nstates() ensures r@ == self.items(s as int) { unimplemented!() }
-    // dialect rule 5: `for (&sym, ref_stidx) in sg.edges(stidx)`
-    #[verifier::external_body]
-    pub fn edges_vec(&self, s: StIdx<$T>) -> (r: &Vec<(Symbol<$T>, StIdx<$T>)>) requires (s.0 as nat) < self.nstates() ensures r@ == self.edge_list(s.0 as int) { unimplemented!() }
-}
-// derive(Ord) on a one-field tuple struct compares the field
-#[verifier::external_body]
-pub fn pidx_cmp(a: PIdx<$T>, b: PIdx<$T>) -> (r: Ordering)
-    ensures (r is Less) == (a.0 < b.0), (r is Equal) == (a.0 == b.0), (r is Greater) == (a.0 > b.0) { unimplemented!() }
-// panics of StateTable::new whose unreachability is LR theory about the item sets (C01 territory): assumed
-#[verifier::external_body]
-pub fn assume_lr(b: bool) ensures b { unimplemented!() }
-#[verifier::external_body]
-pub fn unreachable_lr<A>() -> (r: A) ensures false { unimplemented!() }
-pub enum StateTableErrorKind { AcceptReduceConflict(Option<PIdx<$T>>) }
-pub struct StateTableError { pub kind: StateTableErrorKind, pub pidx: PIdx<$T> }
-
-// assumed: derived Hash/Eq of (RIdx, usize) agree with structural equality
-pub axiom fn key_model() ensures obeys_key_model::<(RIdx<$T>, usize)>();
-// HashMap::values() as an arbitrary-order, duplicate-free list of the map's entries
-// (dialect rule 5; the order is NOT specified: what is proved holds for every order)
-#[verifier::external_body]
-fn hm_entries(m: &HashMap<(RIdx<$T>, usize), PIdx<$T>>) -> (r: Vec<((RIdx<$T>, usize), PIdx<$T>)>)
-    ensures entries_ok(r@, m@),
-{ unimplemented!() }
-
-// ---------------- specification (from the property text) ----------------
-// Row s of a table with n columns occupies the flat indices [s*n, s*n+n); column t is
-// index s*n+t.  All row predicates are stated over the flat range, lo = s*n.
-pub open spec fn key(grm: &YaccGrammar, p: PIdx<$T>) -> (RIdx<$T>, usize) {
-    (grm.rule_of()[p.0 as int], grm.prods()[p.0 as int].len() as usize)
-}
-// production p is reduced by the action of some token in the row [lo, hi)
-pub open spec fn reduces(actions: Seq<usize>, lo: int, hi: int, p: PIdx<$T>) -> bool {
-    exists|i: int| lo <= i < hi && dec(#[trigger] actions[i]) == Action::Reduce(p)
-}
-pub open spec fn row_shifts_ok(actions: Seq<usize>, shifts: Seq<bool>, lo: int, nt: int) -> bool {
-    forall|i: int| lo <= i < lo + nt ==> (#[trigger] shifts[i]) == (dec(actions[i]) is Shift)
-}
-pub open spec fn row_clear(v: Seq<bool>, lo: int, n: int) -> bool { forall|i: int| lo <= i < lo + n ==> !(#[trigger] v[i]) }
-pub open spec fn row_core_ok(grm: &YaccGrammar, actions: Seq<usize>, core: Seq<bool>, lo: int, nt: int, clo: int, np: int) -> bool {
-    // nothing else: every listed production is one of the state's reductions
-    &&& forall|j: int| clo <= j < clo + np && #[trigger] core[j] ==> reduces(actions, lo, lo + nt, PIdx((j - clo) as $T))
-    // one production for each distinct (rule, length) pair among the reductions
-    &&& forall|q: PIdx<$T>| #[trigger] reduces(actions, lo, lo + nt, q) ==> exists|j: int| clo <= j < clo + np && #[trigger] core[j] && key(grm, PIdx((j - clo) as $T)) == key(grm, q)
-    // ... and only one
-    &&& forall|j1: int, j2: int| clo <= j1 < clo + np && clo <= j2 < clo + np && #[trigger] core[j1] && #[trigger] core[j2]
-            && key(grm, PIdx((j1 - clo) as $T)) == key(grm, PIdx((j2 - clo) as $T)) ==> j1 == j2
-}
-pub open spec fn row_reduce_only(grm: &YaccGrammar, actions: Seq<usize>, lo: int, nt: int) -> bool {
-    &&& forall|i: int| lo <= i < lo + nt ==> !(dec(#[trigger] actions[i]) is Shift) && !(dec(actions[i]) is Accept)
-    &&& exists|p: PIdx<$T>| #[trigger] reduces(actions, lo, lo + nt, p)
-    &&& forall|p: PIdx<$T>, q: PIdx<$T>| #[trigger] reduces(actions, lo, lo + nt, p) && #[trigger] reduces(actions, lo, lo + nt, q) ==> key(grm, p) == key(grm, q)
-}
-pub proof fn lemma_row(s: int, n: int, ns: int)
-    requires 0 <= s < ns, 0 <= n
-    ensures 0 <= s * n, s * n + n <= ns * n, s * n + n == (s + 1) * n
-{
-    assert(s * n + n == (s + 1) * n) by(nonlinear_arith);
-    assert((s + 1) * n <= ns * n) by(nonlinear_arith) requires s + 1 <= ns, n >= 0;
-    assert(s * n >= 0) by(nonlinear_arith) requires s >= 0, n >= 0;
-}
-pub proof fn lemma_rows_ordered(s1: int, s2: int, n: int)
-    requires 0 <= s1 < s2, 0 <= n
-    ensures s1 * n + n <= s2 * n
-{
-    assert(s1 * n + n == (s1 + 1) * n) by(nonlinear_arith);
-    assert((s1 + 1) * n <= s2 * n) by(nonlinear_arith) requires s1 + 1 <= s2, n >= 0;
-}
-
-pub type NtKey = (RIdx<$T>, usize);
-// the nt_depth map after looking at the cells [lo, hi): one entry per (rule, length) pair
-pub open spec fn nd_ok(grm: &YaccGrammar, A: Seq<usize>, nd: Map<NtKey, PIdx<$T>>, lo: int, hi: int) -> bool {
-    &&& forall|k: NtKey| nd.contains_key(k) ==> reduces(A, lo, hi, #[trigger] nd[k]) && key(grm, nd[k]) == k
-    &&& forall|q: PIdx<$T>| #[trigger] reduces(A, lo, hi, q) ==> nd.contains_key(key(grm, q))
-}
-pub open spec fn entries_ok(es: Seq<(NtKey, PIdx<$T>)>, nd: Map<NtKey, PIdx<$T>>) -> bool {
-    &&& es.len() == nd.len()
-    &&& forall|i: int| 0 <= i < es.len() ==> nd.contains_key(#[trigger] es[i].0) && nd[es[i].0] == es[i].1
-    &&& forall|i: int, j: int| 0 <= i < j < es.len() ==> #[trigger] es[i].0 != #[trigger] es[j].0
-    &&& forall|k: NtKey| nd.contains_key(k) ==> exists|i: int| 0 <= i < es.len() && (#[trigger] es[i]).0 == k
-}
-// one more cell has been looked at
-pub proof fn lemma_nd_step(grm: &YaccGrammar, A: Seq<usize>, nd0: Map<NtKey, PIdx<$T>>, nd1: Map<NtKey, PIdx<$T>>, lo: int, hi: int)
-    requires
-        nd_ok(grm, A, nd0, lo, hi), 0 <= lo <= hi < A.len(),
-        dec(A[hi]) matches Action::Reduce(p) ==> nd1 == nd0.insert(key(grm, p), p),
-        !(dec(A[hi]) is Reduce) ==> nd1 == nd0,
-    ensures nd_ok(grm, A, nd1, lo, hi + 1),
-{
-    assert forall|q: PIdx<$T>| #[trigger] reduces(A, lo, hi + 1, q) implies nd1.contains_key(key(grm, q)) by {
-        let i = choose|i: int| lo <= i < hi + 1 && dec(#[trigger] A[i]) == Action::Reduce(q);
-        if i < hi { assert(reduces(A, lo, hi, q)); }
-    }
-    assert forall|k: NtKey| nd1.contains_key(k) implies reduces(A, lo, hi + 1, #[trigger] nd1[k]) && key(grm, nd1[k]) == k by {
-        if nd0.contains_key(k) && nd1[k] == nd0[k] {
-            let i = choose|i: int| lo <= i < hi && dec(#[trigger] A[i]) == Action::Reduce(nd0[k]);
-            assert(lo <= i < hi + 1 && dec(A[i]) == Action::Reduce(nd1[k]));
-        } else {
-            assert(dec(A[hi]) == Action::Reduce(nd1[k]));
-        }
-    }
-}
-// core row written from the entries
-pub open spec fn core_from_entries(core: Seq<bool>, es: Seq<(NtKey, PIdx<$T>)>, clo: int, np: int, upto: int) -> bool {
-    forall|j: int| clo <= j < clo + np ==> (#[trigger] core[j]) == (exists|e: int| 0 <= e < upto && (#[trigger] es[e]).1.0 == j - clo)
-}
-pub proof fn lemma_core_step(core0: Seq<bool>, core1: Seq<bool>, es: Seq<(NtKey, PIdx<$T>)>, clo: int, np: int, vi: int, off: int)
-    requires core_from_entries(core0, es, clo, np, vi), 0 <= vi < es.len(), clo <= off < clo + np, off < core0.len(), 0 <= clo,
-        core1 == core0.update(off, true), es[vi].1.0 == off - clo,
-    ensures core_from_entries(core1, es, clo, np, vi + 1),
-{
-    assert forall|j: int| clo <= j < clo + np implies (#[trigger] core1[j]) == (exists|e: int| 0 <= e < vi + 1 && (#[trigger] es[e]).1.0 == j - clo) by {
-        if j == off { assert(es[vi].1.0 == j - clo); }
-        else {
-            assert(core1[j] == core0[j]);
-            if core0[j] { let e = choose|e: int| 0 <= e < vi && (#[trigger] es[e]).1.0 == j - clo; assert(0 <= e < vi + 1); }
-            if exists|e: int| 0 <= e < vi + 1 && (#[trigger] es[e]).1.0 == j - clo {
-                let e = choose|e: int| 0 <= e < vi + 1 && (#[trigger] es[e]).1.0 == j - clo;
-                assert(e != vi);
-                assert(0 <= e < vi);
-            }
-        }
-    }
-}
-pub proof fn lemma_row_core(grm: &YaccGrammar, A: Seq<usize>, core: Seq<bool>, es: Seq<(NtKey, PIdx<$T>)>, nd: Map<NtKey, PIdx<$T>>, lo: int, nt: int, clo: int, np: int)
-    requires
-        grm.wf(), np == grm.nprods(), 0 <= lo, lo + nt <= A.len(), 0 <= clo, clo + np <= core.len(),
-        forall|i: int| 0 <= i < A.len() ==> (dec(#[trigger] A[i]) matches Action::Reduce(p) ==> (p.0 as nat) < grm.nprods()),
-        nd_ok(grm, A, nd, lo, lo + nt), entries_ok(es, nd), core_from_entries(core, es, clo, np, es.len() as int),
-    ensures row_core_ok(grm, A, core, lo, nt, clo, np),
-{
-    assert forall|j: int| clo <= j < clo + np && #[trigger] core[j] implies reduces(A, lo, lo + nt, PIdx((j - clo) as $T)) by {
-        let e = choose|e: int| 0 <= e < es.len() && (#[trigger] es[e]).1.0 == j - clo;
-        assert(nd.contains_key(es[e].0));
-        assert(es[e].1 == PIdx::<$T>((j - clo) as $T));
-    }
-    assert forall|q: PIdx<$T>| #[trigger] reduces(A, lo, lo + nt, q) implies exists|j: int| clo <= j < clo + np && #[trigger] core[j] && key(grm, PIdx((j - clo) as $T)) == key(grm, q) by {
-        assert(nd.contains_key(key(grm, q)));
-        let e = choose|e: int| 0 <= e < es.len() && (#[trigger] es[e]).0 == key(grm, q);
-        let v = es[e].1;
-        assert(reduces(A, lo, lo + nt, v));
-        let i = choose|i: int| lo <= i < lo + nt && dec(#[trigger] A[i]) == Action::Reduce(v);
-        assert((v.0 as nat) < grm.nprods());
-        let j = clo + v.0;
-        assert(core[j]);
-        assert(PIdx::<$T>((j - clo) as $T) == v);
-    }
-    assert forall|j1: int, j2: int| clo <= j1 < clo + np && clo <= j2 < clo + np && #[trigger] core[j1] && #[trigger] core[j2]
-            && key(grm, PIdx((j1 - clo) as $T)) == key(grm, PIdx((j2 - clo) as $T)) implies j1 == j2 by {
-        let e1 = choose|e: int| 0 <= e < es.len() && (#[trigger] es[e]).1.0 == j1 - clo;
-        let e2 = choose|e: int| 0 <= e < es.len() && (#[trigger] es[e]).1.0 == j2 - clo;
-        assert(nd.contains_key(es[e1].0) && nd.contains_key(es[e2].0));
-        assert(es[e1].1 == PIdx::<$T>((j1 - clo) as $T) && es[e2].1 == PIdx::<$T>((j2 - clo) as $T));
-        assert(es[e1].0 == es[e2].0);
-        if e1 < e2 { } else if e2 < e1 { }
-    }
-}
-pub proof fn lemma_reduce_only(grm: &YaccGrammar, A: Seq<usize>, es: Seq<(NtKey, PIdx<$T>)>, nd: Map<NtKey, PIdx<$T>>, lo: int, nt: int, only_reduces: bool)
-    requires
-        nd_ok(grm, A, nd, lo, lo + nt), entries_ok(es, nd),
-        only_reduces ==> forall|i: int| lo <= i < lo + nt ==> !(dec(#[trigger] A[i]) is Shift) && !(dec(A[i]) is Accept),
-        !only_reduces ==> exists|i: int| lo <= i < lo + nt && ((dec(#[trigger] A[i]) is Shift) || (dec(A[i]) is Accept)),
-    ensures (only_reduces && es.len() == 1) == row_reduce_only(grm, A, lo, nt),
-{
-    let flag = only_reduces && es.len() == 1;
-    if flag {
-        assert(nd.contains_key(es[0].0));
-        assert(reduces(A, lo, lo + nt, es[0].1));
-        assert forall|p: PIdx<$T>, q: PIdx<$T>| #[trigger] reduces(A, lo, lo + nt, p) && #[trigger] reduces(A, lo, lo + nt, q) implies key(grm, p) == key(grm, q) by {
-            let e1 = choose|e: int| 0 <= e < es.len() && (#[trigger] es[e]).0 == key(grm, p);
-            let e2 = choose|e: int| 0 <= e < es.len() && (#[trigger] es[e]).0 == key(grm, q);
-        }
-        assert(row_reduce_only(grm, A, lo, nt));
-    }
-    if row_reduce_only(grm, A, lo, nt) {
-        let p = choose|p: PIdx<$T>| #[trigger] reduces(A, lo, lo + nt, p);
-        assert(nd.contains_key(key(grm, p)));
-        let e0 = choose|e: int| 0 <= e < es.len() && (#[trigger] es[e]).0 == key(grm, p);
-        if es.len() >= 2 {
-            assert(nd.contains_key(es[0].0) && nd.contains_key(es[1].0));
-            assert(reduces(A, lo, lo + nt, es[0].1) && reduces(A, lo, lo + nt, es[1].1));
-            assert(key(grm, es[0].1) == key(grm, es[1].1));
-        }
-        if !only_reduces {
-            let i = choose|i: int| lo <= i < lo + nt && ((dec(#[trigger] A[i]) is Shift) || (dec(A[i]) is Accept));
-        }
-        assert(flag);
-    }
-}
-// rows strictly below the current one are outside the frame that changed
-pub proof fn lemma_rows_below(grm: &YaccGrammar, A: Seq<usize>, sh0: Seq<bool>, sh1: Seq<bool>, c0: Seq<bool>, c1: Seq<bool>, si: int, nt: int, np: int, ns: int)
-    requires 0 <= si < ns, 0 <= nt, 0 <= np, sh0.len() == sh1.len() == ns * nt, c0.len() == c1.len() == ns * np,
-        forall|i: int| 0 <= i < ns * nt && !(si * nt <= i < si * nt + nt) ==> #[trigger] sh1[i] == sh0[i],
-        forall|j: int| 0 <= j < ns * np && !(si * np <= j < si * np + np) ==> #[trigger] c1[j] == c0[j],
-        forall|s: int| 0 <= s < si ==> #[trigger] row_shifts_ok(A, sh0, s * nt, nt),
-        forall|s: int| 0 <= s < si ==> #[trigger] row_core_ok(grm, A, c0, s * nt, nt, s * np, np),
-    ensures
-        forall|s: int| 0 <= s < si ==> #[trigger] row_shifts_ok(A, sh1, s * nt, nt),
-        forall|s: int| 0 <= s < si ==> #[trigger] row_core_ok(grm, A, c1, s * nt, nt, s * np, np),
-{
-    assert forall|s: int| 0 <= s < si implies #[trigger] row_shifts_ok(A, sh1, s * nt, nt) by {
-        lemma_rows_ordered(s, si, nt); lemma_row(s, nt, ns);
-        assert(row_shifts_ok(A, sh0, s * nt, nt));
-    }
-    assert forall|s: int| 0 <= s < si implies #[trigger] row_core_ok(grm, A, c1, s * nt, nt, s * np, np) by {
-        lemma_rows_ordered(s, si, np); lemma_row(s, np, ns);
-        let clo = s * np;
-        let lo = s * nt;
-        assert(row_core_ok(grm, A, c0, lo, nt, clo, np));
-        assert forall|j: int| clo <= j < clo + np && #[trigger] c1[j] implies reduces(A, lo, lo + nt, PIdx((j - clo) as $T)) by { assert(c0[j]); }
-        assert forall|q: PIdx<$T>| #[trigger] reduces(A, lo, lo + nt, q) implies exists|j: int| clo <= j < clo + np && #[trigger] c1[j] && key(grm, PIdx((j - clo) as $T)) == key(grm, q) by {
-            let j = choose|j: int| clo <= j < clo + np && #[trigger] c0[j] && key(grm, PIdx((j - clo) as $T)) == key(grm, q);
-            assert(c1[j]);
-        }
-        assert forall|j1: int, j2: int| clo <= j1 < clo + np && clo <= j2 < clo + np && #[trigger] c1[j1] && #[trigger] c1[j2]
-                && key(grm, PIdx((j1 - clo) as $T)) == key(grm, PIdx((j2 - clo) as $T)) implies j1 == j2 by { assert(c0[j1] && c0[j2]); }
-    }
-}
-
-// the property's graph clause: a Shift cell holds the target of the state's edge on that token, a
-// goto cell holds (target + 1) of the state's edge on that rule and 0 when there is none
-pub open spec fn has_edge(el: Seq<(Symbol<$T>, StIdx<$T>)>, n: int, sym: Symbol<$T>, x: int) -> bool {
-    exists|e: int| 0 <= e < n && (#[trigger] el[e]).0 == sym && el[e].1.0 == x
-}
-pub open spec fn row_shift_edges(el: Seq<(Symbol<$T>, StIdx<$T>)>, n: int, A: Seq<usize>, lo: int, nt: int) -> bool {
-    forall|i: int| lo <= i < lo + nt && dec(#[trigger] A[i]) is Shift ==> has_edge(el, n, Symbol::Token(TIdx((i - lo) as $T)), dec(A[i])->Shift_0.0 as int)
-}
-pub open spec fn row_gotos_ok(el: Seq<(Symbol<$T>, StIdx<$T>)>, n: int, G: Seq<usize>, glo: int, nr: int) -> bool {
-    &&& forall|j: int| glo <= j < glo + nr && (#[trigger] G[j]) != 0 ==> has_edge(el, n, Symbol::Rule(RIdx((j - glo) as $T)), G[j] - 1)
-    &&& forall|e: int| 0 <= e < n && (#[trigger] el[e]).0 is Rule ==> G[glo + el[e].0->Rule_0.0] == el[e].1.0 + 1
-}
-pub closed spec fn edges_ok(sg: &StateGraph, A: Seq<usize>, G: Seq<usize>, nt: int, nr: int, ns: int) -> bool {
-    &&& forall|s: int| 0 <= s < ns ==> #[trigger] row_shift_edges(sg.edge_list(s), sg.edge_list(s).len() as int, A, s * nt, nt)
-    &&& forall|s: int| 0 <= s < ns ==> #[trigger] row_gotos_ok(sg.edge_list(s), sg.edge_list(s).len() as int, G, s * nr, nr)
-}
-pub proof fn lemma_edges_ok_intro(sg: &StateGraph, A: Seq<usize>, G: Seq<usize>, nt: int, nr: int, ns: int)
-    requires
-        forall|s: int| 0 <= s < ns ==> #[trigger] row_shift_edges(sg.edge_list(s), sg.edge_list(s).len() as int, A, s * nt, nt),
-        forall|s: int| 0 <= s < ns ==> #[trigger] row_gotos_ok(sg.edge_list(s), sg.edge_list(s).len() as int, G, s * nr, nr),
-    ensures edges_ok(sg, A, G, nt, nr, ns)
-{ }
-pub proof fn lemma_edges_ok_elim(sg: &StateGraph, A: Seq<usize>, G: Seq<usize>, nt: int, nr: int, ns: int)
-    requires edges_ok(sg, A, G, nt, nr, ns)
-    ensures
-        forall|s: int| 0 <= s < ns ==> #[trigger] row_shift_edges(sg.edge_list(s), sg.edge_list(s).len() as int, A, s * nt, nt),
-        forall|s: int| 0 <= s < ns ==> #[trigger] row_gotos_ok(sg.edge_list(s), sg.edge_list(s).len() as int, G, s * nr, nr),
-{ }
-// rows below row `fi` are untouched by the work on row `fi`
-pub proof fn lemma_edge_rows_below(sg: &StateGraph, A0: Seq<usize>, A1: Seq<usize>, G0: Seq<usize>, G1: Seq<usize>, fi: int, nt: int, nr: int, ns: int)
-    requires 0 <= fi < ns, 0 <= nt, 0 <= nr, A0.len() == A1.len() == ns * nt, G0.len() == G1.len() == ns * nr,
-        forall|i: int| 0 <= i < fi * nt ==> #[trigger] A1[i] == A0[i],
-        forall|j: int| 0 <= j < fi * nr ==> #[trigger] G1[j] == G0[j],
-        forall|s: int| 0 <= s < fi ==> #[trigger] row_shift_edges(sg.edge_list(s), sg.edge_list(s).len() as int, A0, s * nt, nt),
-        forall|s: int| 0 <= s < fi ==> #[trigger] row_gotos_ok(sg.edge_list(s), sg.edge_list(s).len() as int, G0, s * nr, nr),
-        forall|s: int, e: int| 0 <= s < ns && 0 <= e < sg.edge_list(s).len() ==> ((#[trigger] sg.edge_list(s)[e]).0 matches Symbol::Rule(r) ==> (r.0 as int) < nr),
-    ensures
-        forall|s: int| 0 <= s < fi ==> #[trigger] row_shift_edges(sg.edge_list(s), sg.edge_list(s).len() as int, A1, s * nt, nt),
-        forall|s: int| 0 <= s < fi ==> #[trigger] row_gotos_ok(sg.edge_list(s), sg.edge_list(s).len() as int, G1, s * nr, nr),
-{
-    assert forall|s: int| 0 <= s < fi implies #[trigger] row_shift_edges(sg.edge_list(s), sg.edge_list(s).len() as int, A1, s * nt, nt) by {
-        lemma_rows_ordered(s, fi, nt); lemma_row(s, nt, ns);
-        assert(row_shift_edges(sg.edge_list(s), sg.edge_list(s).len() as int, A0, s * nt, nt));
-    }
-    assert forall|s: int| 0 <= s < fi implies #[trigger] row_gotos_ok(sg.edge_list(s), sg.edge_list(s).len() as int, G1, s * nr, nr) by {
-        lemma_rows_ordered(s, fi, nr); lemma_row(s, nr, ns);
-        assert(row_gotos_ok(sg.edge_list(s), sg.edge_list(s).len() as int, G0, s * nr, nr));
-    }
-}
-
-pub struct Tables { pub actions: Vec<usize>, pub gotos: Vec<usize>, pub state_actions: Vob, pub core_reduces: Vob, pub state_shifts: Vob, pub reduce_states: Vob }
-
-// every cell's payload fits StorageT and every Reduce cell names a production of the grammar
-pub open spec fn cells_wf(grm: &YaccGrammar, A: Seq<usize>) -> bool {
-    &&& forall|i: int| 0 <= i < A.len() ==> (#[trigger] A[i] >> 2) <= $TMAX
-    &&& forall|i: int| 0 <= i < A.len() ==> (dec(#[trigger] A[i]) matches Action::Reduce(p) ==> (p.0 as nat) < grm.nprods())
-}
-// the property's first clause: listed as having an action  <=>  the action is not an error
-pub open spec fn sa_ok(A: Seq<usize>, sa: Seq<bool>) -> bool {
-    sa.len() == A.len() && forall|i: int| 0 <= i < A.len() ==> (#[trigger] sa[i]) == !(dec(A[i]) is Error)
-}
-pub proof fn lemma_codec2(a: Action<$T>)
-    ensures dec(enc(a)) == a, (enc(a) >> 2) <= $TMAX, (enc(a) == 0usize) <==> (a is Error)
-{
-    lemma_codec(a);
-    match a {
-        Action::Shift(s) => { let v = s.0 as usize; assert((1usize | (v << 2)) >> 2 == v) by(bit_vector) requires v <= 0xffff_ffffusize; }
-        Action::Reduce(p) => { let v = p.0 as usize; assert((2usize | (v << 2)) >> 2 == v) by(bit_vector) requires v <= 0xffff_ffffusize; }
-        Action::Accept => { assert(3usize >> 2 == 0) by(bit_vector); }
-        Action::Error => { assert(0usize >> 2 == 0) by(bit_vector); }
-    }
-}
-// a well-formed Reduce cell is the encoding of what it decodes to
-pub proof fn lemma_reduce_cell(bits: usize)
-    requires (bits >> 2) <= $TMAX, dec(bits) is Reduce
-    ensures enc(dec(bits)) == bits
-{
-    let v = bits >> 2;
-    assert(bits & 3 == 2);
-    assert((2usize | (v << 2)) == bits) by(bit_vector) requires bits & 3 == 2, v == bits >> 2;
-    assert((v as $T) as usize == v);
-}
-pub proof fn lemma_zero_cell()
-    ensures dec(0usize) == Action::<$T>::Error, (0usize >> 2) == 0
-{
-    assert(0usize & 3 == 0) by(bit_vector);
-    assert(0usize >> 2 == 0) by(bit_vector);
-}
-
+//@use units/c16_spec.inc
 //@ctx new: the StateGraph was built for this grammar by lrtable (sg.wf): item productions and edge targets/symbols are in range, contexts have one bit per token, edge symbols of a state are distinct
 //@ctx new: fewer than 2^31 tokens (the i32 counter `distinct_reduces`; automatic for u8/u16 storage)
 //@ctx new: five panic sites whose unreachability is LR theory about the item sets are assumed unreachable (assume_lr / unreachable_lr): assert!(final_state.is_none()), `_ => panic!("Internal error")`, `Action::Shift(x) => assert!(*ref_stidx == x)`, `Action::Accept => panic!("Internal error")`, assert!(final_state.is_some())
